@@ -553,6 +553,13 @@ func externEventWrite(ex *Exec, st *State, c *callCtx) {
 	}
 	refs := st.region("G!out!#ref", arr("Int", "Int"))
 	st.setRegion("G!out!#ref", arr("Int", "Int"), store(refs, n, e.T))
+	// ghost provenance of the event object (set by contracts of the functions that build events)
+	for _, g := range []string{"src", "by"} {
+		if _, ok := ex.w.ghostVars["g_ev"+g]; ok {
+			a := st.region("G!out!#"+g, arr("Int", "Int"))
+			st.setRegion("G!out!#"+g, arr("Int", "Int"), store(a, n, sel(st.region("G!g_ev"+g, arr("Int", "Int")), e.T)))
+		}
+	}
 	st.setRegion("G!out#len", "Int", "(+ "+n+" 1)")
 	errT := types.Universe.Lookup("error").Type()
 	c.k(st, term("0", errT))
@@ -564,6 +571,15 @@ func (ex *Exec) outField(st *State, idx, name string) Val {
 	et := ex.auditEventT()
 	if name == "ref" {
 		return term(sel(st.region("G!out!#ref", arr("Int", "Int")), idx), types.NewPointer(et))
+	}
+	if name == "by" {
+		return term(sel(st.region("G!out!#by", arr("Int", "Int")), idx), types.NewPointer(et))
+	}
+	if name == "src" {
+		if t := ex.w.typeByName("aucoalesce.Event"); t != nil {
+			return term(sel(st.region("G!out!#src", arr("Int", "Int")), idx), types.NewPointer(t))
+		}
+		return Val{K: KTerm, T: sel(st.region("G!out!#src", arr("Int", "Int")), idx)}
 	}
 	return ex.outPath(st, idx, et, name, et)
 }
